@@ -81,6 +81,7 @@ type target struct {
 	OHex OwnHex
 	SSh  []Shout
 	SOHx []OwnHex
+	SUID []strfmt.UUID
 }
 
 // goTypeOf: the Go type a declaration denotes, as printed by %T, and the field of `target`.
@@ -137,7 +138,7 @@ func (d Decl) goType() (string, string) {
 	et, ef := d.elem()
 	if d.Type == "array" {
 		t, _ := goTypeOf(et, ef)
-		f := map[string]string{"string": "SS", "int32": "SI32", "int64": "SI64", "float64": "SF64", "bool": "SB", "main.Shout": "SSh", "main.OwnHex": "SOHx"}[t]
+		f := map[string]string{"string": "SS", "int32": "SI32", "int64": "SI64", "float64": "SF64", "bool": "SB", "main.Shout": "SSh", "main.OwnHex": "SOHx", "strfmt.UUID": "SUID"}[t]
 		return "[]" + t, f
 	}
 	return goTypeOf(et, ef)
